@@ -11,8 +11,8 @@ LMAX = {"quick": 3, "thorough": 5}
 SHARDS = {"quick": 8, "thorough": 14}
 NDOC = {"quick": 400, "thorough": 25000}
 EXHAUSTIVE = {"quick": True, "thorough": True}
-RULE = ("EXHAUSTIVE over all sequences of length <= L (L=3 quick, 5 thorough) over the 21-kind alphabet of "
-        "C06 (real extracted objects), plus random sequences of length 4..9 over 41 kinds that add the pin "
+RULE = ("two focus alphabets (short-form disambiguation: 10 kinds; id./placeholder/roman pages: 12 kinds) enumerated to length 4 (quick) / 5 (thorough); EXHAUSTIVE over all sequences of length <= L (L=3 quick, 5 thorough) over the 21-kind alphabet of "
+        "C06 (real extracted objects), plus random sequences of length 4..9 over 43 kinds that add the pin "
         "window boundaries (page-1, page, page+MAX, page+MAX+1, page+100000, '*10', roman, paragraph pins), "
         "a second named case, a variation-spelled short form and a name-less duplicate, plus lists extracted "
         "from generated ambiguous multi-case documents; oracle = reference model written from the statement "
@@ -22,11 +22,11 @@ RULE = ("EXHAUSTIVE over all sequences of length <= L (L=3 quick, 5 thorough) ov
 ASSUMPTIONS = ["antecedent names are normalised with eyecite.utils.strip_punct in both the model and the code",
                "the pin window constant is read from eyecite.resolve.MAX_OPINION_PAGE_COUNT; a pin 100000 pages "
                "beyond the first page is rejected by the model whatever the constant"]
-FLOORS = {"quick": {"sequences": R.n_sequences(3), "attached:ShortCaseCitation": 300, "attached:SupraCitation": 200,
+FLOORS = {"quick": {"sequences": R.n_sequences(3), "focus_sequences": R.n_focus_sequences(3), "attached:ShortCaseCitation": 300, "attached:SupraCitation": 200,
                     "attached:ReferenceCitation": 100, "id_attached": 300, "id_left_unresolved": 500,
                     "left_unresolved:ShortCaseCitation": 500, "left_unresolved:SupraCitation": 500,
                     "extracted_lists": 500},
-          "thorough": {"sequences": R.n_sequences(5), "id_attached": 100000, "extracted_lists": 30000}}
+          "thorough": {"sequences": R.n_sequences(5), "focus_sequences": R.n_focus_sequences(5), "id_attached": 100000, "extracted_lists": 30000}}
 
 
 def plan(tier, seed):
@@ -67,6 +67,10 @@ def run_shard(spec, rec):
         rec.count("sequences")
         if any(k.startswith("full") for k in combo[:-1]):
             rec.nontrivial(combo)
+    for combo in R.focus_sequences(spec["lmax"], spec["i"], spec["nshards"]):
+        check_seq(R.instantiate(protos, combo), dict(sequence=list(combo)), rec, resolve_citations, maxp)
+        rec.count("focus_sequences")
+        rec.nontrivial(combo)
     rng = random.Random(spec["seed"])
     allk = list(protos)
     fulls = [k for k in allk if k.startswith("full")]
